@@ -6,7 +6,8 @@ from ..index import u, call_name, call_attr, walk_local, base_name
 from .. import flow, interp
 from ..fold import try_fold
 from ..util import stmts_with_env, calls_with_env, assignments_to, single_def, kwarg, param_names, is_log_call, log_type
-from .common import method, unconditional_in
+from .common import method, unconditional_in, atom_text
+from . import shared
 
 CM = 'vermouth/processors/canonicalize_modifications.py'
 CANON = {'chain', 'resid', 'resname', 'insertion_code'}
@@ -120,6 +121,40 @@ def run(ck):
     ck.ob('MPT-cover', mod.loc(cg), ok, 'a modification is placed only on atoms still available, the atoms it covers are taken off the to-do set, and an impossible cover raises',
           key='MPT-cover')
 
+    # ------------------------------------------------------------ every group of unrecognised atoms reaches the cover search
+    fpa = mod.func('find_ptm_atoms')
+    ck.analysed(mod, fpa)
+    wl = [n for n in fpa.body if isinstance(n, ast.While)]
+    ok = len(wl) == 1 and u(wl[0].test) == 'extra_atoms'
+    if ok:
+        app = [s_ for s_ in wl[0].body if isinstance(s_, ast.Expr) and call_attr(s_.value) == 'append' and u(s_.value.func.value) == 'ptms']
+        ok = len(app) == 1 and u(app[0].value.args[0]) == '(atoms, anchors)' and unconditional_in(fpa, wl[0].body, app[0])
+        sub = [s_ for s_ in wl[0].body if isinstance(s_, ast.AugAssign) and u(s_) == 'extra_atoms -= atoms']
+        ok = ok and len(sub) == 1 and unconditional_in(fpa, wl[0].body, sub[0])
+    ex = single_def(fpa, 'extra_atoms')
+    ok = ok and ex is not None and "get('PTM_atom', False)" in u(ex) and "get('modifications')" in u(ex) and 'for n_idx in molecule' in u(ex)
+    ck.ob('MPT-groups', mod.loc(fpa), ok, 'every connected group of unrecognised atoms is handed on with its anchors, whether it has anchors or not (an unanchored group must end in removal + warning)',
+          key='MPT-groups|all-groups')
+    ck.ob('MPT-groups', mod.loc(fp), u(single_def(fp, 'ptm_atoms') if single_def(fp, 'ptm_atoms') is not None else ast.Constant(None)) == 'find_ptm_atoms(molecule)' or
+          any(u(v) == 'find_ptm_atoms(molecule)' for v in assignments_to(fp, 'ptm_atoms')), 'fix_ptm works on all of those groups', key='MPT-groups|consumed')
+    # attribute replacements of a modification apply to every matched atom that declares them, added or anchor
+    rep = stmts_with_env(fp, lambda s_: isinstance(s_, ast.Assign) and u(s_.targets[0]) == 'mol_node[attr_name]')
+    ok = len(rep) == 1
+    if ok:
+        lp = [l for l in mod.ancestors(rep[0][0]) if isinstance(l, ast.For) and 'match.items()' in u(l.iter)]
+        ok = len(lp) == 1
+        if ok:
+            rel = stmts_with_env(fp, lambda s_: s_ is rep[0][0], stmts=lp[0].body)
+            names = {}
+            for k in flow.atoms_of(rel[0][1]):
+                if k[0] == 'In' and k[1] == "'replace'":
+                    names[k] = 'HASREPLACE'
+                elif k[0] == 'Eq' and 'mol_node.get(attr_name)' in atom_text(k) or (k[0] == 'Eq' and '.get(attr_name)' in atom_text(k)):
+                    names[k] = 'SAMEVALUE'
+            ok = flow.equivalent(flow.rename(rel[0][1], names), flow.parse_formula('HASREPLACE and not SAMEVALUE'))[0] and len(names) == len(flow.atoms_of(rel[0][1]))
+    ck.ob('MPT-label', mod.loc(fp), ok, 'the attribute changes a modification declares for an atom are applied whether the atom is added by the modification or an anchor',
+          key='MPT-label|replace')
+
     # ------------------------------------------------------------ KEY: what a residue is
     nk = 0
     for module, qual, fn in idx.all_functions():
@@ -154,4 +189,5 @@ def run(ck):
               key='KEY-residue|fix_ptm|resid-only')
     if not adhoc:
         ck.ob('KEY-residue', mod.loc(fp), True, 'fix_ptm has no ad-hoc grouping by resid alone', key='KEY-residue|fix_ptm|resid-only')
+    shared.truthy_zero(ck, [CM])
     ck.assume('the cover search itself (exactly one, induced, preference for larger modifications) is decided only in the structural parts listed')
